@@ -27,8 +27,12 @@ class ServicesManager:
     def __init__(self):
         # The access to the service dictionary may have competition,
         # so we need to introduce a lock to ensure the access to the dictionary is concurrent safe.
-        self._access_dict_lock = asyncio.Lock()
+        # A condition (rather than a bare lock) lets later connections wait until the entry of the
+        # previous connection has actually been cleaned up.
+        self._access_dict_lock = asyncio.Condition()
         self._service_dict = {}
+        # connections of one sid that are not registered yet, in arrival order
+        self._waiting_dict = {}
 
     async def create_service(self, sid: str, websocket: WebSocketServerProtocol):
         short_sid = shorten_sid(sid)  # shorten sid for display and log
@@ -37,18 +41,24 @@ class ServicesManager:
         # a new service created with the same sid just to send init or control messages will not affect the database.
         service = Service(sid, websocket)
 
-        if sid in self._service_dict:
-            prev_server = self._service_dict[sid]
-            reason = f"Service {short_sid} is already running, we need to wait for the previous connection to close..."
-            logger.warning(reason)
-            # In the previous practice, if the previous connection was not closed,
-            # the later connection was closed, which resulted in a anomalous behavior of the client.
-            # So we need to send a control message to the client to tell it
-            # to wait for the previous connection to close.
-            service.send_message(MsgType.CONTROL, reason.encode('utf8'))
-            await prev_server.wait_closed()  # wait for the previous socket to close
+        waiting = self._waiting_dict.setdefault(sid, [])
+        waiting.append(service)  # arrival order, recorded before the first await
 
         async with self._access_dict_lock:
+            if sid in self._service_dict or waiting[0] is not service:
+                reason = f"Service {short_sid} is already running, we need to wait for the previous connection to close..."
+                logger.warning(reason)
+                # In the previous practice, if the previous connection was not closed,
+                # the later connection was closed, which resulted in a anomalous behavior of the client.
+                # So we need to send a control message to the client to tell it
+                # to wait for the previous connection to close.
+                service.send_message(MsgType.CONTROL, reason.encode('utf8'))
+                # wait until every earlier connection has been closed and cleaned up
+                await self._access_dict_lock.wait_for(
+                    lambda: sid not in self._service_dict and waiting[0] is service)
+            waiting.pop(0)
+            # the service object was created before the lock was taken: its view of the durable state may be stale
+            service.refresh_service_state()
             self._service_dict[sid] = service
         clean_task = asyncio.create_task(self.clean_service_when_close_connection(sid, websocket))
         await service.start()  # run forever! do not use asyncio.create_task
@@ -60,4 +70,5 @@ class ServicesManager:
             await asyncio.sleep(1)
             self._service_dict[sid].close_service()
             del self._service_dict[sid]
+            self._access_dict_lock.notify_all()
         logger.info(f"Clean service {shorten_sid(sid)} successfully.")
